@@ -2,7 +2,7 @@
 Cases are operation histories over {load, new backend, init pipeline, convert collection, convert
 rule}; the last operation is the probe.  The implementation side (impl/c15.py) runs the history and
 then the probe again in a fresh setup."""
-import itertools, random
+import itertools, json, random
 from vlib.core import Property, Suite, clist, cbool, copt, cnat
 from vlib.core import cstr as _cstr
 
@@ -23,6 +23,29 @@ RFS = {"type": "rule_failure", "id": "rfs", "cond": ["state", "index", "lin"]}
 FA = {"type": "field_name_mapping", "id": "fa", "mapping": [["fieldA", "mappedA"]]}
 FC = {"type": "field_name_mapping", "id": "fc", "mapping": [["fieldC", "mappedC"]]}
 
+# external sources (files written by impl/c15.py into a private temp dir); "expect" is what _get_values() yields on a
+# cache miss: a value list, or the error class of the stage that fails (security check / fetch / parse)
+SOURCES = [
+    {"file": "hosts.txt", "expect": ["a", "b"]},
+    {"file": "one.txt", "expect": ["a"]},
+    {"file": "empty.txt", "expect": []},
+    {"file": "hosts.csv", "format": "csv", "csv_column": "host", "expect": ["a", "b"]},
+    {"file": "hosts.csv", "format": "csv", "csv_column": "nope", "expect": "SigmaConfigurationError"},       # parse fails in the row loop
+    {"file": "nofile.txt", "expect": "SigmaValueError"},                                                     # fetch fails
+    {"file": "hosts.txt", "allow": False, "expect": "SigmaSecurityError"},                                   # external sources disabled
+    {"file": "bad.json", "format": "json", "jq_expression": ".items[]", "expect": "SigmaValueError"},        # malformed JSON
+    {"file": "ok.json", "format": "json", "jq_expression": ".items[], .n", "expect": "SigmaConfigurationError"},  # non-scalar after two good values
+    {"file": "ok.json", "format": "json", "jq_expression": ".items[]", "expect": ["a", "b"]},
+    {"file": "hosts.txt", "filter": "^b", "expect": ["b"]},
+    {"file": "bad.yaml", "format": "yaml", "jq_expression": ".a[]", "expect": "SigmaValueError"},            # malformed YAML
+    {"file": "ok.yaml", "format": "yaml", "jq_expression": ".items[]", "expect": ["b", "a"]},
+    {"file": "ok.json", "format": "json", "jq_expression": ".items[", "expect": "SigmaConfigurationError"},  # bad jq expression
+]
+def FP(k, cond=None):
+    d = {"type": "file_placeholders", "id": f"fp{k}", "src": k, "source": SOURCES[k]}
+    if cond is not None: d["cond"] = cond
+    return d
+
 PDEFS = [
     [],
     [ST, FM],
@@ -30,7 +53,12 @@ PDEFS = [
     [ST, RF, FM],           # fails for linux rules after the state was written
     [FM2, FM, ST],          # chained mappings (f->g, then g->h / h->i)
     [STL, RFS, SW],         # failure depends on state
+    [FP(0)], [ST, FP(3), FM], [FP(2)], [FP(1, ["product", 1]), FP(10)],     # sources that work
+    [FP(4)], [ST, FP(8), FM], [FP(5)], [FP(6)], [FP(7)], [FP(11)], [FP(13)],  # parse / fetch / security failures
+    [FP(4, ["product", 2]), FP(12)],                                        # fails for linux rules only
+    [FP(9, ["state", "index", "win"]), ST, FP(5)],                          # source used only under (stale) state
 ]
+FILE_PDEFS = [i for i, d in enumerate(PDEFS) if any(x["type"] == "file_placeholders" for x in d)]
 CLASSES = [
     {"ne": False, "bk": [], "fmt": {}},
     {"ne": True, "bk": [], "fmt": {}},
@@ -39,8 +67,9 @@ CLASSES = [
 ]
 FMTS = [0, 1, 2]
 ERRTAG = {"SigmaValueError": 1, "SigmaPlaceholderError": 2, "SigmaTypeError": 3, "SigmaConditionError": 4,
-          "SigmaRegularExpressionError": 5, "SigmaModifierError": 6, "SigmaTransformationError": 7}
-MODID = {"SigmaStartswithModifier": 1, "SigmaExpandModifier": 2}
+          "SigmaRegularExpressionError": 5, "SigmaModifierError": 6, "SigmaTransformationError": 7,
+          "SigmaSecurityError": 8, "SigmaConfigurationError": 9}
+MODID = {"SigmaStartswithModifier": 1, "SigmaExpandModifier": 2, "SigmaRegularExpressionModifier": 3}
 
 # condition trees: ["id", n] | ["not", t] | ["and", [t..]] | ["or", [t..]]
 def show_cond(t, top=True):
@@ -66,7 +95,7 @@ COND_POOL = [I("sel"), ["not", I("sel")], ["and", [I("sel"), I("flt")]], ["or", 
 BROKEN_CONDS = ["sel and", "sel flt", "sel | count() > 1"]   # ParseException / deprecated pipe syntax -> SigmaConditionError
 
 FIELDS = ["f", "g", "h", "fieldA", "fieldC", "k"]
-VALUES = [("num", "1"), ("num", "2"), ("str", "a"), ("str", "b"), ("star", "a"), ("sw", "b"), ("ph", "x")]
+VALUES = [("num", "1"), ("num", "2"), ("str", "a"), ("str", "b"), ("star", "a"), ("sw", "b"), ("ph", "x"), ("ph", "hosts"), ("re", "ab")]
 
 BAD = {
     "type": ("title: b\nlogsource:\n  product: windows\ndetection:\n  sel:\n    f|startswith: 1\n  condition: sel\n", 3, [1]),
@@ -96,7 +125,8 @@ def rand_rule(rng, hostile=0.25):
             have = {d[0] for d in dets}
             pool = [t for t in COND_POOL if rng.random() < 0.15 or ids_of(t) <= have]
             conds.append(show_cond(rng.choice(pool)))
-    return {"bad": None, "raw": None, "product": rng.choice([0, 1, 1, 2]), "dets": dets, "conds": conds}
+    fields = rng.sample(FIELDS, rng.choice([0, 0, 1, 2, 3]))
+    return {"bad": None, "raw": None, "product": rng.choice([0, 1, 1, 2]), "dets": dets, "conds": conds, "fields": fields}
 
 def ids_of(t):
     if t[0] == "id": return {t[1]}
@@ -104,13 +134,16 @@ def ids_of(t):
     return set().union(*[ids_of(a) for a in t[1]])
 
 # fixed rules that share condition strings, detection names and field names
-R_WIN = {"bad": None, "raw": None, "product": 1, "dets": [["sel", [["g", "num", "1"], ["f", "str", "a"]]], ["flt", [["h", "sw", "b"]]]], "conds": ["sel and not flt"]}
+R_WIN = {"bad": None, "raw": None, "product": 1, "dets": [["sel", [["g", "num", "1"], ["f", "str", "a"]]], ["flt", [["h", "sw", "b"]]]], "conds": ["sel and not flt"], "fields": ["g", "f", "k"]}
 R_LIN = {"bad": None, "raw": None, "product": 2, "dets": [["sel", [["f", "num", "1"]]], ["flt", [["g", "str", "a"]]]], "conds": ["sel and not flt"]}
 R_PH = {"bad": None, "raw": None, "product": 1, "dets": [["sel", [["f", "ph", "x"]]], ["flt", [["g", "str", "a"]]]], "conds": ["flt and not sel"]}
 R_NEG = {"bad": None, "raw": None, "product": 1, "dets": [["sel", [["f", "str", "a"], ["g", "star", "b"]]], ["flt", [["f", "str", "b"]]]], "conds": ["not sel", "sel or flt"]}
 R_UNDEF = {"bad": None, "raw": None, "product": 0, "dets": [["sel", [["f", "num", "1"]]]], "conds": ["sel and nodef"]}
-R_C = {"bad": None, "raw": None, "product": 1, "dets": [["sel", [["fieldC", "num", "1"], ["fieldA", "str", "a"]]]], "conds": ["sel"]}
-FIXED_RULES = [R_WIN, R_LIN, R_PH, R_NEG, R_UNDEF, R_C]
+R_C = {"bad": None, "raw": None, "product": 1, "dets": [["sel", [["fieldC", "num", "1"], ["fieldA", "str", "a"]]]], "conds": ["sel"], "fields": ["fieldA", "fieldC", "h"]}
+R_HOSTS = {"bad": None, "raw": None, "product": 1, "dets": [["sel", [["f", "ph", "hosts"], ["g", "num", "1"]]]], "conds": ["sel"]}
+R_HOSTS_L = {"bad": None, "raw": None, "product": 2, "dets": [["sel", [["f", "ph", "hosts"]]], ["flt", [["h", "ph", "x"], ["g", "str", "a"]]]], "conds": ["sel and not flt", "flt"]}
+R_RE = {"bad": None, "raw": None, "product": 1, "dets": [["sel", [["f", "re", "ab"]]], ["flt", [["g", "str", "a"]]]], "conds": ["flt and not sel"]}   # backend error inside a negated leaf (not-equals classes)
+FIXED_RULES = [R_WIN, R_LIN, R_PH, R_NEG, R_UNDEF, R_C, R_HOSTS, R_HOSTS_L, R_RE]
 
 FILTERS = [
     {"product": 1, "dets": [["sel", [["g", "num", "1"]]]], "cond": "not sel"},
@@ -170,7 +203,7 @@ def rand_history(rng, n, sharing):
     """sharing=False: every backend gets its own class without class-level items / its own pipeline object"""
     ops, nb = [], 0
     used_users, used_cls = set(), set()
-    rule_fn = lambda: (rng.choice(FIXED_RULES) if rng.random() < 0.45 else rand_rule(rng))
+    rule_fn = lambda: (rng.choice(FIXED_RULES) if rng.random() < 0.5 else rand_rule(rng))
     while len(ops) < n:
         op = rand_op(rng, nb, rule_fn)
         if op[0] == "new":
@@ -212,6 +245,15 @@ def gen_history(tier, rng):
         alpha.append(["coll", b, [R_WIN, R_LIN], 2])
         alpha.append(["coll", b, [R_PH, R_WIN], 0])
     alpha.append(["load", bad_rule("type")])
+    # failing conversion (every stage) then probe, on the same / on another backend sharing the pipeline object
+    for d in FILE_PDEFS + [3, 5]:
+        for cls in (0, 1):
+            for r1 in (R_HOSTS, R_HOSTS_L, R_RE, R_PH, R_UNDEF):
+                for r2 in (R_HOSTS, R_HOSTS_L):
+                    out.append(mk_case([d, 1, 0], [["new", cls, 0, False], ["rule", 0, r1, 2], ["rule", 0, r2, 2]]))
+            out.append(mk_case([d, 1, 0], [["new", cls, 0, True], ["new", cls, 0, False], ["coll", 0, [R_HOSTS, R_WIN, R_HOSTS_L], 2], ["rule", 1, R_HOSTS, 2]]))
+            out.append(mk_case([d, 1, 0], [["new", cls, 0, True], ["coll", 0, [R_HOSTS, R_HOSTS, R_HOSTS_L], 0]]))
+            out.append(mk_case([d, 1, 0], [["new", cls, 0, False], ["load", R_HOSTS], ["init", 0, 2], ["coll", 0, [R_WIN, R_HOSTS], 2], ["coll", 0, [R_HOSTS_L, R_HOSTS], 2]]))
     setups = [([1, 2, 0], [["new", 1, 0, False], ["new", 1, 0, True]]),      # shared user pipeline object, not-equals class
               ([2, 3, 0], [["new", 0, 0, False], ["new", 1, 1, True]]),      # nothing shared
               ([1, 1, 0], [["new", 2, None, False], ["new", 2, 1, False]])]  # class-level pipelines shared
@@ -232,6 +274,7 @@ def gen_history(tier, rng):
     for i in range(nrand):
         n = rng.randint(2, 8)
         users = [rng.randrange(len(PDEFS)) for _ in range(3)]
+        if i % 4 == 1: users[0] = rng.choice(FILE_PDEFS)
         out.append(mk_case(users, rand_history(rng, n, sharing=(i % 3 != 0))))
     return [c for c in out if valid(c["ops"])]
 
@@ -244,18 +287,20 @@ def c_item(d):
     else: cond = f"(RState {cstr(c[1])} {cstr(c[2])})"
     if d["type"] == "set_state": tr = f"(TSetState {cstr(d['key'])} {cstr(d['val'])})"
     elif d["type"] == "field_name_mapping": tr = "(TFieldMap " + clist(f"({cstr(a)}, {cstr(b)})" for a, b in d["mapping"]) + ")"
+    elif d["type"] == "file_placeholders": tr = f"(TFile {d['src']})"
     else: tr = "TFail"
     return f"(Build_item {iid} {cond} {tr})"
 
-KIND = {"num": "VNum", "str": "VStr", "star": "VStar", "sw": "VStar", "ph": "VPh"}
+KIND = {"num": "VNum", "str": "VStr", "star": "VStar", "sw": "VStar", "ph": "VPh", "re": "VRe"}
+MODOF = {"sw": 1, "ph": 2, "re": 3}
 def c_rule(r):
     if r["bad"]:
         _, tag, mods = BAD[r["bad"]]
-        return f"(Build_rule (Some {tag}) {clist(str(m) for m in mods)} 0 [] [])"
-    mods = [1 if k == "sw" else 2 for _, items in r["dets"] for _, k, _ in items if k in ("sw", "ph")]
+        return f"(Build_rule (Some {tag}) {clist(str(m) for m in mods)} 0 [] [] [])"
+    mods = [MODOF[k] for _, items in r["dets"] for _, k, _ in items if k in MODOF]
     dets = clist("(" + cstr(n) + ", " + clist(f"(Build_ditem {cstr(f)} {cstr(t)} {KIND[k]})" for f, k, t in items) + ")"
                  for n, items in r["dets"])
-    return f"(Build_rule None {clist(str(m) for m in mods)} {r['product']} {dets} {clist(cstr(c) for c in r['conds'])})"
+    return f"(Build_rule None {clist(str(m) for m in mods)} {r['product']} {dets} {clist(cstr(c) for c in r['conds'])} {clist(cstr(f) for f in r.get('fields', []))})"
 
 def c_tree(t):
     if t[0] == "id": return f"(PId {cstr(t[1])})"
@@ -320,11 +365,13 @@ def c_iout(o):
     snap = "None" if s is None else ("(Some (Build_isnap " + clist(cbool(b) for b in s["applied"]) +
         " " + clist(cstr(x) for x in s["ids"]) +
         " " + clist(f"({cstr(k)}, {cstr(v)})" for k, v in s["state"]) +
-        " " + clist(f"({cstr(k)}, {clist(cstr(x) for x in v)})" for k, v in s["fmap"]) + "))")
+        " " + clist(f"({cstr(k)}, {clist(cstr(x) for x in v)})" for k, v in s["fmap"]) +
+        " " + clist(f"({cstr(k)}, {clist(cstr(x) for x in v)})" for k, v in s["fna"]) + "))")
     i = o["int"]
     errs = clist(str(ERRTAG.get(e, 99)) for e in o.get("errs", []))
     hints = clist(str(MODID.get(h, 99)) for h in i["hints"])
-    return f"(Build_iout {c_res(o['r'])} {errs} {snap} {i['hits']} {i['misses']} {hints} {cbool(i['tpl_ok'])})"
+    vc = clist("None" if x is None else f"(Some {clist(cstr(v) for v in x)})" for x in i["vc"])
+    return f"(Build_iout {c_res(o['r'])} {errs} {snap} {i['hits']} {i['misses']} {hints} {cbool(i['tpl_ok'])} {vc})"
 
 def history_to_coq(c, r):
     if "exc" in r: return None
@@ -338,7 +385,9 @@ def history_to_coq(c, r):
     env = ("(mk_env " + clist(cbool(k["ne"]) for k in c["classes"]) + " " +
            clist(clist(c_item(d) for d in k["bk"]) for k in c["classes"]) + " " +
            clist(clist(f"({f}, {clist(c_item(d) for d in its)})" for f, its in k["fmt"].items()) for k in c["classes"]) + " " +
-           users + " " + parses + ")")
+           users + " " + parses + " " +
+           clist(f"(Ok {clist(cstr(v) for v in x['expect'])})" if isinstance(x["expect"], list) else f"(SigmaErr {ERRTAG[x['expect']]})" for x in SOURCES) + " " +
+           (clist(f"(SUser {o}, {cnat(k)})" for o, u in enumerate(c["users"]) for k, d in enumerate(c["pdefs"][u]) if d["type"] == "file_placeholders") or "(@nil iid)") + ")")
     ops = clist(c_op(o) for o in mops)
     iouts = clist(c_iout(o) for o in r["outs"])
     fresh = f"(Some {c_iout(r['fresh'])})" if r["fresh"] is not None else "(@None iout)"
@@ -392,16 +441,42 @@ def mutate_history(c, rng):
             out.append(dict(c, ops=ops[:i] + [["rule", 0, r, 2]] + ops[i:]))
     return [x for x in out if valid(x["ops"])]
 
+def registry_check(tier, seed):
+    """sigma/pipelines/base.py keeps instances on classes: whatever was defined before, every @Pipeline-decorated
+    function and every Pipeline subclass must yield its own pipeline (specification evaluated directly; no Coq model)"""
+    from vlib import core
+    from vlib.core import Problem
+    rng = random.Random(f"{seed}:C15:registry")
+    names = ["a", "b", "c", "d"]
+    cases = []
+    for n in range(1, 4 if tier == "quick" else 5):
+        for kinds in itertools.product(["dec", "sub"], repeat=n):
+            cases.append({"defs": [[k, names[i]] for i, k in enumerate(kinds)]})
+    res = core.run_impl("C15", "run_registry", cases)
+    problems = []
+    for c, r in zip(cases, res):
+        want = [n for _, n in c["defs"]]
+        if r.get("names") != want:
+            problems.append(Problem("violation", "registry", c, {"impl": r, "expected": want}))
+    return {"name": "registry", "problems": problems, "evaluations": len(cases),
+            "nontrivial_keys": ["registry:" + json.dumps(c) for c in cases if len(c["defs"]) > 1],
+            "stats": {"cases": len(cases), "ok": len(cases) - len(problems)}, "samples": [{"suite": "registry", "case": cases[-1], "impl": res[-1]}]}
+
 REQ = ["Base.Chars", "Base.Outcome", "Model.History", "Spec.Frame", "Run.C15run"]
 PROPERTY = Property(
     pid="C15", props_file="Props/C15.v",
     suites=[Suite("history", gen_history, "run_history", REQ, "judge_history", history_to_coq,
                   known=known_history, mutate=mutate_history, stratum=stratum, shard=150)],
+    extra_checks=[registry_check],
     rule="operation histories over {load (valid / invalid document), new backend (4 classes: plain, not-equals mode, with class-level "
          "backend+format pipelines, not-equals with format pipelines; user pipeline object shared or not; collect_errors), init pipeline, "
          "convert collection, convert rule} x 3 output formats x 6 pipeline definitions (state, state conditions, chained field mappings, "
-         "rule failure); rules share condition strings, detection names and field names; failing conversions at load, pipeline, parse, "
-         "undefined identifier, rendering, rendering inside a negated not-equals leaf. Exhaustive: all histories of <= 1 (quick) / <= 2 "
+         "rule failure) + 13 pipeline definitions with file_placeholders items over 14 external sources (plaintext / csv / json / yaml files "
+         "in a temp dir: working, empty, filtered; failing at security check, fetch, csv column lookup, JSON / YAML decoding, jq expression, "
+         "non-scalar jq result after good values); rules share condition strings, detection names, field names and `fields` lists; failing "
+         "conversions at load, pipeline (rule_failure, external source), parse, pipe syntax, undefined identifier, rendering (placeholder), "
+         "rendering inside a negated not-equals leaf (placeholder error and backend NotImplementedError); 'failing conversion then probe' for "
+         "every pipeline definition x failing rule x probe, on the same and on another backend sharing the pipeline object. Exhaustive: all histories of <= 1 (quick) / <= 2 "
          "(thorough) operations from a 17-operation alphabet after two backend creations in 3 sharing setups x all 14 probes (6 of them at length 2), sampled at the next "
          "length (70 / 400 histories x 2 probes per setup); 400 / 6000 random histories of 2..8 operations incl. collections with a filter document. The last operation is the probe; oracle = same probe with new class objects, new "
          "pipeline objects from the same YAML and cleared caches. non-trivial = probe is a conversion preceded by at least one "
@@ -411,6 +486,8 @@ PROPERTY = Property(
                  "(C07) are outside this model: parsing is a parameter of the model, validated per case against the implementation",
                  "LRU eviction (maxsize 256) of the condition parse cache is not modelled: entries are a function of the key, histories use fewer keys",
                  "FieldMappingTracking.add_mapping is modelled for 1:1 mappings whose reverse sets are singletons (set iteration order otherwise)",
-                 "correlation rules, filters, nested pipelines, postprocessing items, finalizers, rule.fields / field_name_applied_ids and the "
-                 "external-source value cache are not part of the modelled state (the latter is a function of the file content)"],
+                 "correlation rules, nested pipelines, postprocessing items and finalizers are not part of the modelled state; filter rewriting is "
+                 "done by the harness",
+                 "external sources are local files whose content is constant during a history (parameter e_src of the model); HTTP / command "
+                 "sources are not run (they share _get_values with the file source)"],
 )
